@@ -33,7 +33,7 @@ func vpIsSpace(c byte) bool {
 
 //vp:property C04
 //vp:set x 4 6
-//vp:set budget 60 600
+//vp:set budget 300 900
 //vp:bounds X-Forwarded-For absent or any ASCII string of <= x bytes (4 quick, 6 thorough) (commas, blanks, empty elements); peer address one of {"192.0.2.9:4242", "[2001:db8::1]:80", "nohostport", ""}; new or existing session
 //vp:assume header bytes are ASCII (< 0x80): strings.TrimSpace's Unicode path is outside the bound
 //vp:reach xff peer
